@@ -12,7 +12,8 @@
    tokio's read_to_string fails on it with InvalidData.
    State of the code modelled: /repo after the fix commits 87b8642 (save_dict = temporary sibling + flush +
    sync_all + rename), ebb53b3 (contains_exact_word compares normalised spellings), f2dc537 (child hash =
-   sum of per-word hashes), ba0a239 (import_words re-synchronises whenever the dictionary changed).
+   sum of per-word hashes), ba0a239 (import_words re-synchronises whenever the dictionary changed),
+   08b9da8 (file_dict_name fails for a URL that names no file).
    The definitions named `..._old` are the code BEFORE those commits; they are kept only for the
    regression witnesses (`C07_*_old_refuted`) and are not part of the extracted model. *)
 Require Import Base.
@@ -326,9 +327,11 @@ Section Model.
     match seg with [] => false | [c] => negb (N.eqb c DOT) | _ => true end.
   Definition components (p : list N) : list (list N) := filter is_real_seg (split_on SLASH [] p).
   Definition mangle (segs : list (list N)) : list N := flat_map (fun seg => seg ++ [PCT]) segs.
+  (* since 08b9da8 a URL whose path has no component (file:///) names no file: Err, like a URL without a
+     file path *)
   Definition file_dict_name (u : url) : option (list N) :=
     match u with
-    | FileUrl p => Some (mangle (components p))
+    | FileUrl p => match mangle (components p) with [] => None | n => Some n end
     | Untitled _ => None
     end.
 
@@ -488,7 +491,7 @@ Definition mk_curated (tb : ctable) (es : list entry) : dict :=
 Definition x_load (tb : ctable) (t : text) : list word :=
   words_of (dict_from_word_list (tb_is_lower tb) (tb_lower tb) t).
 
-Definition x_name (p : list N) : list N := mangle (components p).
+Definition x_name (p : list N) : option (list N) := file_dict_name (FileUrl p).
 
 (* the iteration order of the hash map is not observable before the write; the driver proposes one
    that is consistent with what was found on disk afterwards, the model only accepts a permutation
